@@ -1,8 +1,8 @@
 """C25 Sobolev space comparisons form a consistent partial order -- exhaustive.
 
 Universe: the 12 predefined spaces + DirectionalSobolevSpace(o) for o in {0,1,2,3,inf}^{1..3} (167 spaces).
-All ordered pairs and all triples are enumerated (directional spaces of different length are not compared
-with each other: they live in different spatial dimensions).
+All ordered pairs and all triples are enumerated; directional spaces of different length live in different spatial
+dimensions: for such pairs every comparison must be False (!= True), and no triples are formed across lengths.
 
 Reference subspace relation (own table, not read from ufl):
   named/named   : reflexive-transitive closure of the hierarchy L2 > HDiv,HCurl > H1 > H1Div,H1Curl > H2 > H3 > HInf,
@@ -28,7 +28,7 @@ RULE = (
 )
 ASSUMPTIONS = [
     "reference subspace relation is the harness' own table (see module docstring)",
-    "directional spaces of different length are not compared with each other",
+    "directional spaces of different length are unrelated (all comparisons False); no transitivity claim across lengths",
 ]
 BUDGET = {"quick": {"examples": 0, "seconds": 600}, "thorough": {"examples": 0, "seconds": 1200}}
 CASE_TIMEOUT = {"quick": 300, "thorough": 600}
@@ -148,8 +148,6 @@ def tables():
     T = {k: [[None] * n for _ in range(n)] for k in ops}
     for i in range(n):
         for j in range(n):
-            if not comparable(u[i], u[j]):
-                continue
             for k, f in ops.items():
                 try:
                     r = f(objs[i], objs[j])
@@ -188,6 +186,16 @@ def check_case(case):
     for j in range(n):
         b = u[j]
         if not comparable(a, b):
+            # directional spaces over a different number of directions are unrelated: no comparison may hold (triples
+            # through named spaces, which have no dimension, are not formed across lengths)
+            vals = {k: T[k][i][j] for k in T}
+            if any(isinstance(v, str) for v in vals.values()):
+                continue
+            for k in ("lt", "gt", "le", "ge", "eq"):
+                if vals[k] is not False:
+                    raise Violation(f"unrelated spaces: {a} {k} {b} returned {vals[k]!r}", {"kind": "cross-length-" + k, "a": enc(a), "b": enc(b)})
+            if vals["ne"] is not True:
+                raise Violation(f"unrelated spaces: {a} != {b} returned {vals['ne']!r}", {"kind": "cross-length-ne", "a": enc(a), "b": enc(b)})
             continue
         vals = {k: T[k][i][j] for k in T}
         if any(v == "undefined" for v in vals.values() if isinstance(v, str)):
